@@ -31,6 +31,10 @@ ASSUMPTIONS = [
     "leaves the tag unselected, it answers no command until it is activated again; ContactlessFrontend is the real "
     "class (sense() swallows the driver's CommunicationError and reports 'no target', exchange() without target "
     "returns None)",
+    "t2t: C08 differential runs: AUTH0 / ACCESS (NTAG21x, Ultralight EV1) and AUTH0 / AUTH1 (Ultralight C) decide "
+    "whether the TAG answers a READ; they are the only bytes behind the data area that are not inverted",
+    "t2t: loops inside nfc/tag/tt2*.py that iterate more than 250 000 times within one activation + NDEF evaluation do "
+    "not terminate (the largest evaluation of the thorough tier needs 8 426 iterations, 3.4 % of that)",
     "t2t: a 3-byte length field that would cover reserved bytes (255+ byte message on a layout whose reserved range "
     "starts at NDEF TLV offset + 2 or + 3) is outside 'reserved ranges anywhere except on the NDEF TLV's tag and "
     "length-field bytes': such writes are executed and counted (t2t_c03_outside_quantifier_*), never judged",
@@ -43,7 +47,7 @@ ASSUMPTIONS = [
 def build_model(case):
     kind = case.get("kind", "generic")
     kw = {}
-    for k in ("sens_res", "sel_res", "nak_idle", "enforce_locks"):
+    for k in ("sens_res", "sel_res", "nak_idle", "enforce_locks", "uid_len"):
         if case.get(k) is not None:
             kw[k] = case[k]
     valid = None
@@ -72,6 +76,59 @@ def bound_hit(e):
 
 def rnd_bytes(rng, n):
     return bytes(rng.getrandbits(8) for _ in range(n))
+
+
+def fast_bytes(rng, n):
+    """n random bytes; long ones (oversize messages) in one call"""
+    return rnd_bytes(rng, n) if n <= 2048 else rng.randbytes(n)
+
+
+# messages that are correlated with what the tag / the tag object holds: most pages of the new TLV equal the stored ones
+CORR_KINDS = ("scatter", "extend", "truncate", "identical", "last-byte", "first-byte", "restore",
+              "const-00", "const-FF", "const-FE", "const-03")
+
+
+def correlated(rng, prev, lim, kind, first=b""):
+    """a message derived from `prev` (the message stored last), at most `lim` bytes: scatter = 2-3 bytes changed,
+    extend = prev + a few bytes, truncate = a prefix, identical, last-byte / first-byte changed, restore = the message
+    the sequence started from, const-XX = every byte XX (length of prev, or another one)"""
+    prev = bytes(prev)
+    if kind == "scatter" and prev:
+        m = bytearray(prev)
+        for _ in range(rng.choice([2, 3])):
+            i = rng.randrange(len(m))
+            m[i] ^= rng.choice([0x01, 0x80, 0xFF, 0x5A])
+        return bytes(m[:lim])
+    if kind == "extend" or (kind in ("scatter", "truncate", "last-byte", "first-byte") and not prev):
+        k = rng.choice([1, 1, 2, 3, 4, 5, 17, 40])
+        if len(prev) in (250, 251, 252, 253, 254) or rng.random() < 0.1:
+            k = max(k, 255 - len(prev)) if len(prev) < 255 else k      # across the 1-byte / 3-byte length boundary
+        return (prev + rnd_bytes(rng, k))[:lim]
+    if kind == "truncate":
+        return prev[:rng.choice([len(prev) - 1, len(prev) - 4, len(prev) // 2, rng.randrange(len(prev))])][:lim] if len(
+            prev) > 4 else prev[:len(prev) - 1]
+    if kind == "last-byte":
+        return (prev[:-1] + bytes([prev[-1] ^ 0xFF]))[:lim]
+    if kind == "first-byte":
+        return (bytes([prev[0] ^ 0xFF]) + prev[1:])[:lim]
+    if kind == "restore":
+        return bytes(first)[:lim]
+    if kind.startswith("const-"):
+        n = rng.choice([len(prev), len(prev), lim, rng.randrange(lim + 1), min(lim, 8)])
+        return bytes([int(kind[6:], 16)]) * min(n, lim)
+    return prev[:lim]
+
+
+def correlated_sequence(rng, old, lim, count):
+    """-> (messages, kinds): a chain m1 = f1(old), m2 = f2(m1), ...; every kind of CORR_KINDS is equally likely"""
+    msgs, kinds, prev = [], [], bytes(old)
+    for _ in range(count):
+        kind = rng.choice(CORR_KINDS)
+        m = correlated(rng, prev, lim, kind, first=old)
+        msgs.append(m)
+        kinds.append(kind)
+        prev = m
+    return msgs, kinds
 
 
 def product_layout(rng, kind, old_len=None, nnull=None, adjacent=None):
@@ -153,6 +210,7 @@ def pick_lengths(rng, cap, lay_mem, count):
 # =====================================================================================================================
 # C01  round trip and capacity
 # =====================================================================================================================
+OVERSIZE_CLASSES = ("cap_plus_2", "cap_plus_255", "len_65535", "len_65536", "twice_cap")
 RULE_C01 = ("cases = (layout, sequence of message lengths): layouts from the generator (CC size 6..255 incl. "
             "multi-sector, 0-3 NULL, 0-2 lock-control, 0-2 memory-control TLVs with reserved ranges in the header, "
             "in a gap before the NDEF TLV, inside / directly after / at the end of / across the end of / beyond the "
@@ -174,7 +232,18 @@ RULE_C01 = ("cases = (layout, sequence of message lengths): layouts from the gen
             "the answer lost): j = every command for short sequences, otherwise the WRITE that zeroes the length, the "
             "next WRITE, two random WRITEs, the last two WRITEs, a random command; x = new (mostly), the old message, a "
             "variation of new; new lengths 0 (the zeroed length is the whole write), 1..40, 253..256, 300, capacity; "
-            "then the reference reader and a fresh nfcpy activation must read exactly x")
+            "then the reference reader and a fresh nfcpy activation must read exactly x; when that repetition raises "
+            "although the link is healthy and the length fits, that is a violation of 'assigning ... succeeds' as well.  "
+            "Layout class 'in-filler' (vf.ref.t2_layout.filler_layout): the range of a control TLV lies inside the value "
+            "of a proprietary TLV that precedes the NDEF TLV (directly behind its length field / in the middle / one "
+            "value byte behind it / directly behind its last value byte), 1- and 3-byte length, up to 1200 bytes.  "
+            "Content class 'correlated' (22 % of the generic and product cases): the sequence of messages written on "
+            "one object is a chain m1 = f(stored message), m2 = f(m1) ... with f from scatter (2-3 bytes changed), "
+            "extend (also across 254/255), truncate, identical, last / first byte changed, restore (the message the "
+            "chain started from), constant 00h / FFh / FEh / 03h; every message is read back by the reference reader "
+            "and a fresh activation; observed: WRITE commands sent < pages of the TLV (unchanged pages left alone).  "
+            "Oversize class: one message of capacity+2 / capacity+255 / 65535 / 65536 / 2 x capacity octets in 30 % of "
+            "the sequences: ValueError and no command")
 REQUIRED_C01 = ["t2t_roundtrips", "t2t_capacity_checked", "t2t_oversize_rejected", "t2t_ref_reader_checked",
                 "t2t_layout_sector-straddle", "t2t_layout_adjacent-len1", "t2t_layout_adjacent-len3",
                 "t2t_layout_adjacent-product", "t2t_layout_end-zone-16", "t2t_layout_end-zone-8",
@@ -184,7 +253,12 @@ REQUIRED_C01 = ["t2t_roundtrips", "t2t_capacity_checked", "t2t_oversize_rejected
                 "t2t_c01_retry_fault_at_last_write", "t2t_c01_retry_empty_final_message",
                 "t2t_c01_retry_two_failed_attempts", "t2t_c01_retry_tag_unchanged_by_failed_attempts",
                 "t2t_c01_retry_with_new", "t2t_c01_retry_with_old", "t2t_c01_retry_with_variation",
-                "t2t_c01_retry_write_executed_but_not_acknowledged"]
+                "t2t_c01_retry_write_executed_but_not_acknowledged",
+                "t2t_layout_in-filler", "t2t_layout_in-filler-head", "t2t_layout_in-filler-middle",
+                "t2t_layout_in-filler-last-byte-behind", "t2t_layout_in-filler-gap-after",
+                "t2t_c01_write_left_unchanged_value_pages_alone"] + [
+    "t2t_oversize_rejected_" + _c for _c in OVERSIZE_CLASSES] + [
+    "t2t_c01_corr_" + _k.replace("-", "_") for _k in CORR_KINDS]
 
 
 def plan_c01(tier):
@@ -199,6 +273,11 @@ def plan_c01(tier):
             {"mode": "products", "n": 2400, "nlen": 7, "timeout": 3000},
             {"mode": "small-exhaustive", "n": 9000, "timeout": 3000},
             {"mode": "retry", "n": 1500, "max_cc2": 255, "timeout": 3000}]
+
+
+def oversize_len(cls, cap):
+    return {"cap_plus_2": cap + 2, "cap_plus_255": cap + 255, "len_65535": 65535, "len_65536": 65536,
+            "twice_cap": max(2 * cap, cap + 3)}[cls]
 
 
 def run_c01(desc, R, rng):
@@ -217,8 +296,13 @@ def run_c01(desc, R, rng):
         else:
             kind = "generic"
             if mode == "small-exhaustive":
-                lay = L.gen_layout(rng, cc2=rng.choice([6, 6, 7, 8, 12]), filler=False,
-                                   adjacent=2 if rng.random() < 0.1 else None)
+                if rng.random() < 0.08:
+                    # a reserved range inside the value of a proprietary TLV in front of the NDEF TLV
+                    lay = L.filler_layout(rng, cc2=rng.choice([10, 12, 12, 16]), fill_len=rng.choice([3, 5, 9, 20]),
+                                          second=rng.random() < 0.3)
+                else:
+                    lay = L.gen_layout(rng, cc2=rng.choice([6, 6, 7, 8, 12]), filler=False,
+                                       adjacent=2 if rng.random() < 0.1 else None)
             elif rng.random() < 0.012:
                 # a Memory Control TLV whose reserved range starts in one sector and ends in the next one
                 lay = None
@@ -231,20 +315,39 @@ def run_c01(desc, R, rng):
             elif rng.random() < 0.05:
                 # a declared range within the last 16 / 8 / 4 bytes of the data area
                 lay = L.gen_layout(rng, end_zone=True)
+            elif rng.random() < 0.06:
+                # a reserved range inside the value of a proprietary TLV in front of the NDEF TLV (anywhere in the data area)
+                lay = L.filler_layout(rng, second=rng.random() < 0.4)
             else:
                 near_end = rng.random() < 0.06
                 lay = L.gen_layout(rng, near_end=near_end)
             mem, tags = lay.mem, lay.tags
         r = L.ref_read(mem)
         cap = L.ref_capacity(r.ndef_off, r.data_end, r.reserved)
+        corr = None
         if mode == "small-exhaustive":
             lens = list(range(0, cap + 2))
             rng.shuffle(lens)
             R.exhaustive = True
         else:
             lens = pick_lengths(rng, cap, mem, desc["nlen"])
-        case = {"family": FAM, "kind": kind, "mem": bytes(mem), "writes": [rnd_bytes(rng, n) for n in lens],
-                "verify_each": rng.random() < 0.6}
+        writes = [rnd_bytes(rng, n) for n in lens]
+        if mode != "small-exhaustive" and rng.random() < 0.22:
+            # contents correlated with what is stored / was written before on the same object (most pages unchanged)
+            lim = 254 if cap >= 255 and L.length_field_on_reserved(r.ndef_off, r.reserved, 255) else cap
+            writes, corr = correlated_sequence(rng, r.message[:lim], lim, desc["nlen"] + 2)
+        over = None
+        if rng.random() < (0.5 if mode == "small-exhaustive" else 0.3):
+            # a message (much) longer than the capacity, somewhere in the sequence
+            over = rng.choice(OVERSIZE_CLASSES)
+            at = rng.randrange(len(writes) + 1)
+            writes.insert(at, fast_bytes(rng, oversize_len(over, cap)))
+            if corr:
+                corr.insert(at, "oversize")
+        case = {"family": FAM, "kind": kind, "mem": bytes(mem), "writes": writes,
+                "verify_each": corr is not None or rng.random() < 0.6}
+        if corr:
+            case["corr"] = corr
         for t in tags:
             R.count("t2t_layout_" + t)
         c01_case(case, R)
@@ -321,8 +424,12 @@ def c01_case(case, R):
                 R.count("t2t_oversize_rejected")
                 if len(data) == cap + 1:
                     R.count("t2t_len_capacity_plus_1")
+                for ocls in OVERSIZE_CLASSES:
+                    if len(data) == oversize_len(ocls, cap):
+                        R.count("t2t_oversize_rejected_" + ocls)
             continue
         # a write that must succeed
+        log0 = len(dev.log)
         st, e = guard(lambda: setattr(nd, "octets", data))
         if len(data) == 0:
             R.count("t2t_len_0")
@@ -351,6 +458,15 @@ def c01_case(case, R):
                 R.count("t2t_reserved_inside_message")
             if rr.value_addrs and rr.value_addrs[-1] >= 1024:
                 R.count("t2t_multi_sector_messages")
+            # observation: pages of the TLV that the writer left alone because their content did not change
+            nwr = sum(1 for _n, c, _r in dev.log[log0:] if c[:1] == b"\xA2")
+            tlv_pages = set(a // 4 for a in [rr.ndef_off, rr.ndef_off + 1] + list(rr.value_addrs))
+            if nwr < len(tlv_pages):
+                R.count("t2t_c01_write_left_unchanged_pages_alone")
+                if len(tlv_pages) - nwr >= 3 and len(rr.value_addrs) >= 24:
+                    R.count("t2t_c01_write_left_unchanged_value_pages_alone")
+            if case.get("corr") and wi < len(case["corr"]) and case["corr"][wi] in CORR_KINDS:
+                R.count("t2t_c01_corr_" + case["corr"][wi].replace("-", "_"))
         # oracle 2: a second, independent nfcpy reader (fresh activation on the same memory)
         if case.get("verify_each", True) or wi == len(writes) - 1 or wi == len(writes) - 2:
             dev, tag, nd = fresh()
@@ -489,11 +605,16 @@ def c01_retry_case(case, R, writes=None):
     st, e = guard(lambda: setattr(nd, "octets", final))
     R.count("t2t_c01_retry_cases")
     if st == "exc":
-        # the property promises success for an assignment on a well-formed layout; whether that extends to a tag
-        # object that has seen a failure is left open: observed, not judged (foreign exceptions: C16)
+        # "assigning NDEF message octets of any length up to the capacity succeeds": the link is healthy again, the
+        # layout is well-formed, the length fits - the repetition on the same object must not raise
         R.count("t2t_c01_retry_retry_raised")
         R.seen("t2t_c01_retry_retry_exceptions", exc_sig(e))
-        R.case(key, nontrivial=False)
+        j0, cmd0, _wr = first_cmds[0]
+        R.violation(sigbase + "write-raises/%s/%s" % ("after-lost-write" if cmd0[:1] == b"\xA2" else "after-lost-read", exc_sig(e)),
+                    "%d failed attempt(s) of octets=<%d bytes> (exchanges lost from command %s on), then the fault-free "
+                    "octets=<%s, %d bytes> on the same object raised: %s" % (
+                        len(faults), len(new), "/".join(str(x) for x, _f in faults), how, len(final), exc_text(e)[-300:]), wit)
+        R.case(key)
         return
     R.count("t2t_c01_retry_completed")
     R.count("t2t_c01_retry_with_" + how)
@@ -587,44 +708,76 @@ RULE_C02 = ("cases = (layout, old message, new message, cut point k): NDEF TLV a
             "command index for short sequences, otherwise a random WRITE, the last WRITE and a random command; two "
             "failed attempts (first WRITE twice / random positions); then every k = 0..n of the retry (quick tier: "
             "every k for 'first WRITE lost', boundary + random k for the other fault positions of long writes); same "
-            "oracle: the fresh reader / reference reader see the old message, nothing, an empty or the new message")
+            "oracle: the fresh reader / reference reader see the old message, nothing, an empty or the new message.  "
+            "Start image class 'cut state' (1 in 8 of the generic images, vf.ref.t2_layout.cut_state): the image is "
+            "itself what an interrupted write leaves behind - 03 00 + stale 3-byte length rest + old value, 03 00 + new "
+            "hi lo + partial new value, 03 00 + partial value, 03 FF 00 00 + partial value - then a write with every "
+            "cut.  Class 'history' (own shard): 1-3 COMPLETED assignments on one ndef object (a chain of correlated "
+            "messages, a quarter starting with an unrelated one), then `octets = new` on the SAME object with every cut "
+            "k; new is correlated with the message written last (2-3 bytes changed, extended - also across 254/255 -, "
+            "truncated, first / last byte changed, the message stored at the very beginning, constant 00/FF/FE/03), so "
+            "that only the length page and a few value pages are written; 'old' is the message of the last completed "
+            "assignment")
 REQUIRED_C02 = ["t2t_cut_runs", "t2t_cut_outcome_old", "t2t_cut_outcome_new", "t2t_cut_outcome_empty",
                 "t2t_cut_straddling_layouts",
                 "t2t_c02_retry_cases", "t2t_c02_retry_cut_runs", "t2t_c02_retry_first_write_never_reached_tag",
                 "t2t_c02_retry_fault_at_later_command", "t2t_c02_retry_two_failed_attempts",
                 "t2t_c02_retry_tag_unchanged_by_failed_attempt", "t2t_c02_retry_new_3_byte_length",
                 "t2t_c02_retry_new_1_byte_length", "t2t_c02_retry_old_3_byte_length", "t2t_c02_retry_old_1_byte_length",
-                "t2t_c02_retry_outcome_old", "t2t_c02_retry_outcome_new", "t2t_c02_retry_outcome_empty"]
+                "t2t_c02_retry_outcome_old", "t2t_c02_retry_outcome_new", "t2t_c02_retry_outcome_empty",
+                "t2t_c02_product_images", "t2t_c02_multi_sector_layouts",
+                "t2t_c02_multi_sector_new_message_reaches_sector_1",
+                "t2t_c02_start_image_is_cut_state", "t2t_c02_start_image_len0_stale_long_length",
+                "t2t_c02_start_image_len0_new_long_length", "t2t_c02_start_image_len0_partial_short",
+                "t2t_c02_start_image_ff_0000_partial",
+                "t2t_c02_history_cases", "t2t_c02_history_cut_runs", "t2t_c02_history_few_pages_written",
+                "t2t_c02_history_outcome_old", "t2t_c02_history_outcome_new", "t2t_c02_history_outcome_empty",
+                "t2t_c02_history_new_3_byte_length", "t2t_c02_history_new_1_byte_length",
+                "t2t_c02_history_old_3_byte_length", "t2t_c02_history_old_1_byte_length"] + [
+    "t2t_c02_history_new_" + _k.replace("-", "_") for _k in CORR_KINDS if _k != "identical"]
 
 C02_LENS = [0, 1, 5, 253, 254, 255, 256, 300]
 
 
 def plan_c02(tier):
     if tier == "quick":
-        return ([{"align": a, "n": 110, "max_cc2": 80} for a in range(4)] +
-                [{"mode": "retry", "aligns": al, "n": 36, "max_cc2": 80} for al in ([0, 2], [1, 3])])
+        return ([{"align": a, "n": 100, "max_cc2": 80} for a in range(4)] +
+                [{"mode": "retry", "aligns": al, "n": 36, "max_cc2": 80} for al in ([0, 2], [1, 3])] +
+                [{"mode": "history", "n": 300, "max_cc2": 80}])
     return ([{"align": a, "n": 330, "max_cc2": 255, "timeout": 3000} for a in range(4)] +
-            [{"mode": "retry", "aligns": [a], "n": 120, "max_cc2": 255, "timeout": 3000} for a in range(4)])
+            [{"mode": "retry", "aligns": [a], "n": 120, "max_cc2": 255, "timeout": 3000} for a in range(4)] +
+            [{"mode": "history", "n": 1500, "max_cc2": 255, "timeout": 3000} for _ in range(2)])
+
+
+def _c02_product_image(rng, a, old_len):
+    """NTAG215 / 216 / NTAG I2C image with the NDEF TLV shifted to alignment a by NULL TLVs -> (kind, mem, ref) | None"""
+    kind = rng.choice(["ntag215", "ntag216", "i2c1k", "i2c2k"])
+    mem, _old = product_layout(rng, kind, old_len=old_len, nnull=0)
+    r = L.ref_read(mem)
+    shift = (a - r.ndef_off) % 4
+    if shift:
+        end = 16 + S.PRODUCTS[kind]["cc2"] * 8
+        body = bytes(mem[r.ndef_off:end - shift])
+        mem[r.ndef_off:r.ndef_off + shift] = bytes(shift)
+        mem[r.ndef_off + shift:end] = body
+        r = L.ref_read(mem)
+        if r.status != "ndef":
+            return None
+    return kind, mem, r
 
 
 def run_c02(desc, R, rng):
+    if desc.get("mode") == "history":
+        return _run_c02_history(desc, R, rng)
     retry = desc.get("mode") == "retry"
     for i in range(desc["n"]):
         a = desc["aligns"][i % len(desc["aligns"])] if retry else desc["align"]
+        cls = None
         if i % 8 == 7:
-            kind = rng.choice(["ntag215", "ntag216", "i2c1k", "i2c2k"])
-            mem, _old = product_layout(rng, kind, old_len=rng.choice(C02_LENS), nnull=0)
-            r = L.ref_read(mem)
-            # shift the TLV to the wanted alignment with NULL TLVs in front of it
-            shift = (a - r.ndef_off) % 4
-            if shift:
-                end = 16 + S.PRODUCTS[kind]["cc2"] * 8
-                body = bytes(mem[r.ndef_off:end - shift])
-                mem[r.ndef_off:r.ndef_off + shift] = bytes(shift)
-                mem[r.ndef_off + shift:end] = body
-                r = L.ref_read(mem)
-                if r.status != "ndef":
-                    continue
+            x = _c02_product_image(rng, a, rng.choice(C02_LENS))
+            if x is None:
+                continue
+            kind, mem, r = x
         else:
             kind = "generic"
             cc2 = rng.choice([40, 48, 62, 80, 126, 127, 128, 160, 255])
@@ -632,6 +785,10 @@ def run_c02(desc, R, rng):
             lay = L.gen_layout(rng, cc2=cc2, align=a, old_len=rng.choice(C02_LENS + [None]), filler=False,
                                min_capacity=40)
             mem = lay.mem
+            if i % 8 == 3 and not retry:
+                # the start image is itself the state an interrupted write left behind (length 0 + partial data)
+                mem, variant = L.cut_state(rng, mem, L.CUT_STATE_VARIANTS[(i // 8) % len(L.CUT_STATE_VARIANTS)])
+                cls = "cut-state/" + variant
             r = L.ref_read(mem)
         cap = L.ref_capacity(r.ndef_off, r.data_end, r.reserved)
         nl = rng.choice(C02_LENS + [cap, rng.randrange(cap + 1)])
@@ -640,10 +797,50 @@ def run_c02(desc, R, rng):
         if new == r.message:
             continue
         case = {"family": FAM, "kind": kind, "mem": bytes(mem), "new": new}
+        if cls:
+            case["cls"] = cls
         if retry:
             c02_retry_enumerate(case, R, rng, desc["tier"])
         else:
             c02_case(case, R)
+
+
+C02_HISTORY_NEW = tuple(k for k in CORR_KINDS if k != "identical")
+
+
+def _run_c02_history(desc, R, rng):
+    """class 'completed write(s), then a cut write at every k, all on ONE tag / ndef object', contents correlated"""
+    for i in range(desc["n"]):
+        a = i % 4
+        if i % 8 == 7:
+            x = _c02_product_image(rng, a, rng.choice(C02_LENS))
+            if x is None:
+                continue
+            kind, mem, r = x
+        else:
+            kind = "generic"
+            cc2 = rng.choice([18, 18, 40, 40, 48, 62, 80, 126, 127, 160])
+            cc2 = min(cc2, desc["max_cc2"]) if rng.random() < 0.93 else cc2
+            lay = L.gen_layout(rng, cc2=cc2, align=a, old_len=rng.choice(C02_LENS + [None, None]), filler=False,
+                               min_capacity=40)
+            mem = lay.mem
+            r = L.ref_read(mem)
+        cap = L.ref_capacity(r.ndef_off, r.data_end, r.reserved)
+        lim = 254 if cap >= 255 and L.length_field_on_reserved(r.ndef_off, r.reserved, 255) else cap
+        pre, _kinds = correlated_sequence(rng, r.message[:lim], lim, rng.choice([1, 1, 2, 3]))
+        if rng.random() < 0.25:
+            pre[0] = rnd_bytes(rng, min(lim, rng.choice(C02_LENS)))     # the first completed write replaces everything
+        ckind = rng.choice(C02_HISTORY_NEW)
+        new = correlated(rng, pre[-1], lim, ckind, first=r.message[:lim])
+        if new == pre[-1]:
+            ckind = "extend"
+            new = correlated(rng, pre[-1], lim, "extend")
+        if new == pre[-1]:
+            continue
+        case = {"family": FAM, "kind": kind, "mem": bytes(mem), "pre": pre, "new": new, "corr": ckind}
+        if desc["tier"] == "quick":
+            case["k_sample"] = rng.getrandbits(30)      # long writes: boundary cuts + random ones (every k: thorough)
+        c02_case(case, R)
 
 
 def replay_c02(case, R):
@@ -863,30 +1060,42 @@ def _c02_judge(R, model, wit, old, new, ref0, sigbase, where, cprefix):
 
 
 def c02_case(case, R):
+    """case: mem, kind, new, optional pre (messages assigned - completely, fault-free - on the same ndef object before
+    the write that is cut), optional k (replay: this cut only)"""
     import nfc.tag
     base = build_model(case)
     image = bytes(base.mem)
     new = bytes(case["new"])
+    pre = [bytes(m) for m in case.get("pre") or []]
     ref0 = L.ref_read(image)
     if ref0.status != "ndef":
         R.inconc("t2t c02: harness produced a layout without NDEF TLV")
         return
-    old = ref0.message
+    old = pre[-1] if pre else ref0.message
+    key = image + b"".join(b"<%d>" % len(m) + m for m in pre) + new
 
     def start():
         model = build_model(case)
         clf, dev, tag = activate(model)
         dev.command_bound = COMMAND_BOUND
         nd = tag.ndef if tag is not None else None
+        if nd is not None and nd.octets == ref0.message:
+            for m in pre:
+                nd.octets = m
         return model, dev, nd
 
     # uninterrupted reference write: n acknowledged WRITE commands
     st, v = guard(start)
     if st == "exc" or v[2] is None or v[2].octets != old or len(new) > v[2].capacity:
-        R.case(image + new, nontrivial=False)
+        R.case(key, nontrivial=False)
         R.count("t2t_c02_setup_skipped")
         return
     model, dev, nd = v
+    stored = L.ref_read(model.mem)
+    if stored.status != "ndef" or stored.message != old:
+        R.case(key, nontrivial=False)           # a completed write that is not stored: round trip, judged by C01
+        R.count("t2t_c02_setup_skipped")
+        return
     sc0 = dev.state_changes
     st, e = guard(lambda: setattr(nd, "octets", new))
     n = dev.state_changes - sc0
@@ -895,27 +1104,62 @@ def c02_case(case, R):
         R.count("t2t_c02_uninterrupted_write_raised")      # e.g. the empty message defect, judged by C01
     elif after.status != "ndef" or after.message != new:
         R.count("t2t_c02_setup_skipped")                    # round trip failure, judged by C01
-        R.case(image + new, nontrivial=False)
+        R.case(key, nontrivial=False)
         return
     if _straddles(ref0.ndef_off, len(new)):
         R.count("t2t_cut_straddling_layouts")
     R.seen("t2t_c02_alignments", ref0.ndef_off % 4)
     R.max("t2t_c02_n", n)
-    ks = [case["k"]] if case.get("k") is not None else range(0, n + 1)
+    if case.get("kind", "generic") != "generic":
+        R.count("t2t_c02_product_images")
+    if len(image) > 1024:
+        R.count("t2t_c02_multi_sector_layouts")
+        if after.status == "ndef" and after.value_addrs and after.value_addrs[-1] >= 1024:
+            R.count("t2t_c02_multi_sector_new_message_reaches_sector_1")
+    cls = str(case.get("cls") or "")
+    if cls.startswith("cut-state/"):
+        R.count("t2t_c02_start_image_is_cut_state")
+        R.count("t2t_c02_start_image_" + cls[10:].replace("-", "_"))
+    if pre:
+        sigbase, runs, cprefix = "t2t/c02/after-completed-writes/mixed/", "t2t_c02_history_cut_runs", "t2t_c02_history_outcome_"
+        R.count("t2t_c02_history_cases")
+        R.count("t2t_c02_history_completed_writes", len(pre))
+        R.count("t2t_c02_history_new_" + str(case.get("corr", "other")).replace("-", "_"))
+        R.count("t2t_c02_history_new_%d_byte_length" % (3 if len(new) >= 255 else 1))
+        R.count("t2t_c02_history_old_%d_byte_length" % (3 if len(old) >= 255 else 1))
+        if n <= 4:
+            R.count("t2t_c02_history_few_pages_written")
+    else:
+        sigbase, runs, cprefix = "t2t/c02/mixed/", "t2t_cut_runs", "t2t_cut_outcome_"
+    if case.get("k") is not None:
+        ks = [case["k"]]
+    elif case.get("k_sample") is not None and n > 30:
+        import random
+        rk = random.Random(case["k_sample"])
+        ks = sorted(set([0, 1, 2, 3, n - 3, n - 2, n - 1, n] + [rk.randrange(n + 1) for _ in range(8)]))
+    else:
+        ks = range(0, n + 1)
     for k in ks:
-        model, dev, nd = start()
+        st, v = guard(start)
+        if st == "exc" or v[2] is None:
+            R.inconc("t2t c02: the preparation of a cut run is not reproducible (%r)" % (v,))
+            return
+        model, dev, nd = v
         dev.arm_cut(k)
         st, e = guard(lambda: setattr(nd, "octets", new))
         if st == "exc" and not isinstance(e, nfc.tag.TagCommandError):
             R.count("t2t_c02_write_other_exception")
         if k < n and not dev.dead:
             R.inconc("t2t c02: cut %d of %d was not reached" % (k, n))
-        R.count("t2t_cut_runs")
-        wit = dict(case)
+        R.count(runs)
+        wit = {x: y for x, y in case.items() if x != "k_sample"}
         wit["k"] = k
-        _c02_judge(R, model, wit, old, new, ref0, "t2t/c02/mixed/", "cut after WRITE %d of %d" % (k, n), "t2t_cut_outcome_")
-        R.case(image + new + b"|%d" % k)
-    R.sample({"kind": case.get("kind"), "ndef_off": ref0.ndef_off, "old": len(old), "new": len(new), "n": n})
+        _c02_judge(R, model, wit, old, new, ref0, sigbase,
+                   ("%d completed write(s) on the same object, then " % len(pre) if pre else "") +
+                   "cut after WRITE %d of %d" % (k, n), cprefix)
+        R.case(key + b"|%d" % k)
+    R.sample({"kind": case.get("kind"), "ndef_off": ref0.ndef_off, "old": len(old), "new": len(new), "n": n,
+              "pre": len(pre)})
 
 
 # =====================================================================================================================
@@ -951,7 +1195,14 @@ RULE_C03 = ("cases = (layout, operation sequence): layouts as for C01 with empha
             "octets=<capacity the reader REPORTS + d octets>, d = -2..+2 - the setter's capacity check is the only guard "
             "in front of the placement loop, so the lengths are drawn relative to what nfcpy reports, not to the "
             "reference capacity; a refused length (ValueError) is a normal outcome, an accepted one is judged like "
-            "every write (memory diff + WRITE addresses); reported vs reference capacity is counted, not judged (C01)")
+            "every write (memory diff + WRITE addresses); reported vs reference capacity is counted, not judged (C01).  "
+            "Also: octets = b'' (length 0) is an operation like every other length; 15 % of the writes carry contents "
+            "correlated with the stored message (2-3 bytes changed, extended, truncated, identical, constant "
+            "00/FF/FE/03: the writer leaves unchanged pages alone - observed); blank NXP products: format() creates the "
+            "mapping, then write_rel / format / octets= follow on the SAME tag object and are judged against the "
+            "created mapping; the protected ranges of a product whose mapping format() creates come from the product "
+            "table (dynamic lock bytes, configuration pages, keys), not from the TLVs nfcpy wrote; layout class "
+            "'in-filler' (reserved range inside the value of a proprietary TLV in front of the NDEF TLV)")
 REQUIRED_C03 = ["t2t_c03_write_rel_at_reported_capacity", "t2t_c03_write_rel_below_reported_capacity",
                 "t2t_c03_write_rel_above_reported_refused", "t2t_c03_reported_capacity_equals_reference",
                 "t2t_c03_endzone_16_write_rel_at_reported_capacity", "t2t_c03_endzone_8_write_rel_at_reported_capacity",
@@ -970,7 +1221,12 @@ REQUIRED_C03 = ["t2t_c03_write_rel_at_reported_capacity", "t2t_c03_write_rel_bel
                 "t2t_c03_adjacent_len1_format", "t2t_c03_adjacent_len1_format_wipe", "t2t_c03_adjacent_len1_write",
                 "t2t_c03_adjacent_len3_format", "t2t_c03_adjacent_len3_format_wipe", "t2t_c03_adjacent_len3_write",
                 "t2t_c03_adjacent_to_empty_tlv_format", "t2t_c03_adjacent_to_empty_tlv_format_wipe",
-                "t2t_c03_adjacent_format_product", "t2t_c03_adjacent_format_generic"]
+                "t2t_c03_adjacent_format_product", "t2t_c03_adjacent_format_generic",
+                "t2t_c03_write_len_0", "t2t_c03_write_left_unchanged_value_pages_alone",
+                "t2t_c03_blank_product_format_then_write_rel_at_reported_capacity",
+                "t2t_c03_blank_product_format_then_write_rel_above_reported_refused",
+                "t2t_c03_layout_in-filler", "t2t_c03_layout_in-filler-head", "t2t_c03_layout_in-filler-middle",
+                "t2t_c03_layout_in-filler-last-byte-behind", "t2t_c03_layout_in-filler-gap-after"]
 
 
 def plan_c03(tier):
@@ -1107,12 +1363,14 @@ def run_c03(desc, R, rng):
     if mode == "retry":
         return _run_c03_retry(desc, R, rng)
     for _i in range(desc["n"]):
+        blank = False
         if mode == "products":
             kind = rng.choice(sorted(S.PRODUCTS))
             if rng.random() < 0.25:
                 # blank product: CC present, no NDEF TLV (data area empty or a terminator only)
                 mem, _v = S.product_image(kind, rng)
                 mem[16:19] = rng.choice([b"\0\0\0", b"\xFE\0\0", b"\0\xFE\0"])
+                blank = True
             elif rng.random() < 0.25:
                 # a control TLV reserves the bytes directly behind the length field of the stored NDEF TLV
                 mem, _old = product_layout(rng, kind, adjacent=rng.choice([2, 2, 4]))
@@ -1135,38 +1393,62 @@ def run_c03(desc, R, rng):
                 # a declared range within the last 16 / 8 / 4 bytes of the data area (ending exactly at the end,
                 # starting exactly at end - 16, inside, across the end)
                 lay = L.gen_layout(rng, end_zone=True, trailing=rng.choice([4, 4, 8, 16, 20, 32, 0]))
+            elif rng.random() < 0.07:
+                # a reserved range inside the value of a proprietary TLV in front of the NDEF TLV
+                lay = L.filler_layout(rng, second=rng.random() < 0.4)
             else:
                 lay = L.gen_layout(rng)
             mem = lay.mem
+            for t in lay.tags:
+                if t.startswith("in-filler"):
+                    R.count("t2t_c03_layout_" + t)
         r = L.ref_read(mem)
         ops = []
         if r.status == "ndef":
             cap = L.ref_capacity(r.ndef_off, r.data_end, r.reserved)
             adjacent = r.ndef_off + (2 if len(r.message) < 255 else 4) in r.reserved
             p_rel = 0.5 if L.end_zone_classes(r) else 0.12
+            prev = r.message        # what the tag holds when the next operation starts (if all of them succeed)
+            lim = 254 if cap >= 255 and L.length_field_on_reserved(r.ndef_off, r.reserved, 255) else cap
             for _j in range(rng.choice([1, 2, 3])):
                 x = rng.random()
+                if rng.random() < 0.15 and prev is not None:
+                    # contents correlated with the stored message: only a few pages of the TLV change
+                    prev = correlated(rng, prev[:lim], lim, rng.choice(CORR_KINDS), first=r.message[:lim])
+                    ops.append(["write", prev])
+                    continue
                 if rng.random() < p_rel and not (adjacent and cap >= 255):
                     # length relative to the capacity the reader REPORTS (whatever the reference capacity is)
                     ops.append(["write_rel", [rng.choice([0, 0, 0, -1, -2, 1, 1, 2]), rng.randrange(256)]])
+                    prev = None
                     continue
                 if adjacent and cap >= 255 and x < 0.06 and L.length_field_on_reserved(r.ndef_off, r.reserved, 255):
                     # outside the quantifier (the new length field lies on reserved bytes): observed, not judged
                     ops.append(["write", rnd_bytes(rng, rng.choice([255, cap]))])
                     break
-                if x < (0.35 if adjacent else 0.55) and cap >= 1:
-                    ln = [n for n in pick_lengths(rng, cap, mem, 3) if 1 <= n <= cap]
+                if x < (0.35 if adjacent else 0.55):
+                    ln = [n for n in pick_lengths(rng, cap, mem, 3) if 0 <= n <= cap]
                     if not ln:
                         continue
-                    ops.append(["write", rnd_bytes(rng, ln[0])])
+                    prev = rnd_bytes(rng, ln[0])
+                    ops.append(["write", prev])
                 elif x < 0.7:
                     ops.append(["format", None])
+                    prev = b""
                 else:
                     ops.append(["format", rng.choice([0, 0xA5, 0xFF, 0xFE, rng.randrange(256)])])
+                    prev = b""
             if not ops:
                 ops.append(["format", rng.choice([None, 0, 0xA5])])
         else:
             ops = [["format", rng.choice([None, 0, 0xA5])]]
+            if blank and rng.random() < 0.6:
+                # the mapping format() created on the blank product, then writes on the SAME tag object
+                ops.append(["write_rel", [rng.choice([0, 0, -1, 1, 2]), rng.randrange(256)]])
+                if rng.random() < 0.4:
+                    ops.append(rng.choice([["format", rng.choice([None, 0x5A])],
+                                           ["write_rel", [rng.choice([0, -2, 1]), rng.randrange(256)]],
+                                           ["write", rnd_bytes(rng, rng.choice([0, 1, 5, 30]))]]))
         case = {"family": FAM, "kind": kind, "mem": bytes(mem), "ops": ops}
         c03_case(case, R)
 
@@ -1191,6 +1473,20 @@ def _region(a, ref):
     return None
 
 
+def _product_protected(kind):
+    """bytes of an NXP product that lie outside the user memory, from the product table (data sheets): dynamic lock
+    bytes, configuration pages (MIRROR / AUTH0 / ACCESS / PWD / PACK), authentication configuration and key"""
+    p = S.PRODUCTS[kind]
+    out = set()
+    if p["dynlock"] is not None:
+        out.update(range(p["dynlock"] * 4, p["dynlock"] * 4 + 4))
+    if p["cfg"] is not None:
+        out.update(range(p["cfg"] * 4, p["cfg"] * 4 + 16))
+    if kind == "ulc":
+        out.update(range(41 * 4, 48 * 4))
+    return out
+
+
 def c03_case(case, R):
     model = build_model(case)
     kind = case.get("kind", "generic")
@@ -1200,6 +1496,7 @@ def c03_case(case, R):
         R.inconc("t2t c03: activation failed")
         return
     reached = False
+    created = False
     resets0 = model.sector_resets
     for oi, op in enumerate(case["ops"]):
         name, arg = op[0], op[1]
@@ -1300,6 +1597,8 @@ def c03_case(case, R):
             else:
                 what = "raised"
             R.count("t2t_c03_write_rel_" + what)
+            if created:
+                R.count("t2t_c03_blank_product_format_then_write_rel_" + what)
             for z in zones:
                 R.count("t2t_c03_endzone_%s_write_rel_%s" % (z, what))
         for z in zones:
@@ -1312,11 +1611,11 @@ def c03_case(case, R):
         elif kind in S.PRODUCTS and name == "format" and refb.status == "no-ndef":
             # oracle boundary: format() of a blank NXP product creates the mapping it documents; protected are
             # identifier, lock/OTP/CC bytes, reserved ranges (of the new mapping) and everything beyond the data area
-            refx = L.ref_read(after)
-            refx.data_end = refb.data_end
-            refx.ndef_off = 16
+            # (the protected ranges come from the product table, not from what nfcpy wrote)
+            refx = L.RefResult("no-ndef", data_end=refb.data_end, ndef_off=16, reserved=_product_protected(kind))
             allowed_from = 16
             boundary = "creates-mapping"
+            created = True
         else:
             allowed_from, refx = None, refb
             boundary = "nothing"
@@ -1326,6 +1625,14 @@ def c03_case(case, R):
                 return _region(a, refx) or "no-ndef-area"
             return _region(a, refx)
         R.count("t2t_c03_ops_" + opname.replace("-", "_"))
+        if name == "write" and st == "ok" and refb.status == "ndef":
+            if len(arg) == 0:
+                R.count("t2t_c03_write_len_0")
+            ra0 = L.ref_read(bytes(model.mem))
+            if ra0.status == "ndef" and ra0.message == bytes(arg):
+                tlv_pages = set(a // 4 for a in [ra0.ndef_off, ra0.ndef_off + 1] + list(ra0.value_addrs))
+                if len(model.write_cmds) + 3 <= len(tlv_pages) and len(arg) >= 24:
+                    R.count("t2t_c03_write_left_unchanged_value_pages_alone")
         R.count("t2t_c03_bytes_diffed", len(before))
         changed = [a for a in range(len(before)) if before[a] != after[a]]
         bad = {}
@@ -1422,7 +1729,24 @@ RULE_C08 = ("cases = (memory image, discovery data, GET_VERSION answer, response
             "up to the range, NDEF TLV directly behind it); additional outcome oracle there and on every other "
             "multi-sector image and a sample of the single-sector ones: octets (and whether an NDEF object is found) "
             "are independent of the identifier / internal / static lock bytes 4..11 (second differential run); the tag "
-            "model's answers to READ in sector > 0 are compared with the memory of that sector")
+            "model's answers to READ in sector > 0 are compared with the memory of that sector.  The differential run "
+            "inverts (a) every byte behind the declared data area - for NXP product personalities too: dynamic lock "
+            "bytes, MIRROR / configuration / PWD / PACK / counter pages, except AUTH0 / ACCESS (AUTH1), which the TAG "
+            "interprets when it answers READ - and (b) the bytes INSIDE the data area that Lock Control / Memory Control "
+            "TLVs exclude from it (reference reader; only behind the length field of the NDEF TLV and only when no "
+            "declared range covers a byte of a TLV that was walked); signatures tell the two apart (octets-from-outside-"
+            "data-area / octets-from-reserved-bytes).  The same differential is run when the tag stops answering after "
+            "command j (first j that still yields an NDEF object, the last two, a quarter of the others) and when "
+            "responses were only WITHHELD (silence), never replaced.  Images of the 'tag stops answering' and the "
+            "adversarial-response runs: valid generic 40 %, product 30 %, MUTATED generic 20 %, mutated product 10 %, "
+            "each with a GET_VERSION variant (30 %) and discovery variants (30 %); the 'mutated' shard also holds NXP "
+            "product layouts (10 %, half of them lightly mutated), 'in-filler' layouts and unmutated layouts.  "
+            "Identifier of 4 / 7 / 10 bytes (sdd_res; 12 % of the cases with discovery variants).  An exception out of "
+            "the harness' own ContactlessFrontend.sense() is counted "
+            "(t2t_c08_sense_raised_counted_as_not_discovered), not judged.  Loop budget: the taken backward jumps "
+            "inside nfc/tag/tt2.py and tt2_nxp.py are counted per evaluation (sys.monitoring JUMP events); more than "
+            "250 000 (29 x the largest evaluation of the thorough tier, 8 426) is non-termination without commands - a "
+            "violation (t2t/c08/nontermination/step-budget/<step>) with the image as witness")
 REQUIRED_C08 = ["t2t_c08_outcome_ndef", "t2t_c08_outcome_tag_without_ndef", "t2t_c08_outcome_none",
                 "t2t_c08_noninterference_checked", "t2t_c08_stop_points", "t2t_c08_adversarial_responses",
                 "t2t_c08_version_variants",
@@ -1432,8 +1756,98 @@ REQUIRED_C08 = ["t2t_c08_outcome_ndef", "t2t_c08_outcome_tag_without_ndef", "t2t
                 "t2t_c08_straddle_cases", "t2t_c08_straddle_value_behind_range", "t2t_c08_straddle_tlv_behind_range",
                 "t2t_c08_straddle_returned_reference_value", "t2t_c08_straddle_reads_answered_from_sector>0",
                 "t2t_c08_straddle_boundary_1024", "t2t_c08_straddle_boundary_2048",
-                "t2t_c08_header_noninterference_checked"] + [
+                "t2t_c08_header_noninterference_checked",
+                "t2t_c08_step_budget_armed", "t2t_c08_noninterference_declared_reserved_bytes_inverted",
+                "t2t_c08_noninterference_product_checked", "t2t_c08_noninterference_product_config_lock_pages_inverted",
+                "t2t_c08_noninterference_stop_or_silence_runs",
+                "t2t_c08_uid_len_4_ndef", "t2t_c08_uid_len_7_ndef", "t2t_c08_uid_len_10_ndef",
+                "t2t_c08_stop_mutated_images", "t2t_c08_stop_version_variants",
+                "t2t_c08_adversarial_mutated_images", "t2t_c08_adversarial_version_variants",
+                "t2t_c08_class_product_layout", "t2t_c08_layout_in_filler"] + [
     "t2t_c08_tlv_end_form%d_off_%s" % (_f, TE.off_name(_d)) for _f in (1, 3) for _d in TE.OFFSETS]
+
+C08_STEPS = 250000      # loop iterations (taken backward jumps) inside nfc/tag/tt2*.py per evaluation; the largest evaluation
+#                         observed on the unchanged tree (thorough tier, 2 KiB images, adversarial responses) needs 8426
+#                         (counter max_t2t_c08_loop_iterations_per_evaluation): the budget is 29 x that
+
+
+class StepBudgetExceeded(BaseException):
+    pass
+
+
+class StepBudget(object):
+    """counts the loop iterations executed inside nfc.tag.tt2 / nfc.tag.tt2_nxp through sys.monitoring (JUMP events =
+    taken unconditional jumps, i.e. the back edge of every for / while loop and comprehension, of the code objects of
+    these two modules only; a LINE budget decides the same thing at twice the run time) and raises into the monitored
+    code when one evaluation exceeds the budget: a loop that sends no commands is decided on logical progress, not on
+    time (unbounded recursion ends in RecursionError, which the escape clause reports).  BaseException, so that no
+    handler inside nfcpy absorbs it."""
+    _inst = None
+
+    @classmethod
+    def get(cls):
+        if cls._inst is None:
+            cls._inst = cls()
+        return cls._inst
+
+    def __init__(self):
+        import sys
+        import types
+        import nfc.tag.tt2
+        import nfc.tag.tt2_nxp
+        self.count = 0
+        self.limit = C08_STEPS
+        self.active = False
+        mon = getattr(sys, "monitoring", None)
+        if mon is None:
+            return
+        tool = None
+        for cand in (3, 2, 1):
+            try:
+                mon.use_tool_id(cand, "vf-t2t-steps")
+                tool = cand
+                break
+            except ValueError:
+                continue
+        if tool is None:
+            return
+        seen = set()
+
+        def codes(obj):
+            if isinstance(obj, types.CodeType):
+                if obj not in seen:
+                    seen.add(obj)
+                    for c in obj.co_consts:
+                        codes(c)
+            elif isinstance(obj, types.FunctionType):
+                codes(obj.__code__)
+            elif isinstance(obj, (staticmethod, classmethod)):
+                codes(obj.__func__)
+            elif isinstance(obj, property):
+                for f in (obj.fget, obj.fset, obj.fdel):
+                    if f is not None:
+                        codes(f)
+            elif isinstance(obj, type):
+                for v in vars(obj).values():
+                    codes(v)
+
+        for m in (nfc.tag.tt2, nfc.tag.tt2_nxp):
+            for v in vars(m).values():
+                if getattr(v, "__module__", None) == m.__name__:
+                    codes(v)
+
+        def on_jump(code, offset, destination):
+            self.count += 1
+            if self.count > self.limit:
+                self.count = 0
+                raise StepBudgetExceeded()
+
+        mon.register_callback(tool, mon.events.JUMP, on_jump)
+        for c in seen:
+            mon.set_local_events(tool, c, mon.events.JUMP)
+        self.ncode = len(seen)
+        self.active = True
+
 
 C08_BOUND = 3000        # largest fault-free evaluation of the biggest image (2 KB, read twice) stays below 400
 C08_MAX_BOUND_HITS = 12  # a shard stops generating after this many command-bound violations (verdict is fixed)
@@ -1528,6 +1942,8 @@ def _c08_discovery(rng, case):
         case["sens_res"] = rng.choice([b"\x44\x00", b"\x04\x00", b"\x44\x03", b"\x42\x00", b"\x84\x00"])
     if rng.random() < 0.1:
         case["sel_res"] = rng.choice([b"\x00", b"\x04", b"\x08", b"\x18", b"\x10"])
+    if rng.random() < 0.12:
+        case["uid_len"] = rng.choice([4, 10])       # single / triple size identifier (sdd_res of 4 / 10 bytes)
 
 
 # geometries of the tlv-end class: (UID0, physical bytes, CC2); data area = bytes 16 .. 16 + 8*CC2 - 1
@@ -1708,9 +2124,22 @@ def run_c08(desc, R, rng):
             _c08_discovery(rng, case)
             if rng.random() < 0.3:
                 _c08_version(rng, case, R)
+        elif mode == "mutated" and rng.random() < 0.1:
+            # NXP product personality with its documented layout, unchanged or lightly mutated: the honest evaluation
+            # is followed by the differential runs over the lock / configuration / password pages behind the data area
+            cls = "product-layout"
+            _c08_product_case(rng, case, R, p_mutate=0.5)
+            _c08_discovery(rng, case)
         elif mode == "mutated":
-            lay = L.gen_layout(rng, uid0=rng.choice([None, None, 0x04]), near_end=rng.random() < 0.05)
-            mem, names = _mutate(rng, lay)
+            if rng.random() < 0.05:
+                lay = L.filler_layout(rng, uid0=rng.choice([None, None, 0x04]), second=rng.random() < 0.4)
+                R.count("t2t_c08_layout_in_filler")
+            else:
+                lay = L.gen_layout(rng, uid0=rng.choice([None, None, 0x04]), near_end=rng.random() < 0.05)
+            if rng.random() < 0.12:
+                mem, names = bytearray(lay.mem), ["none"]       # the valid layout itself
+            else:
+                mem, names = _mutate(rng, lay)
             case["mem"] = bytes(mem)
             for nm in names:
                 R.count("t2t_c08_mutation_" + nm.replace("-", "_").replace("+", "plus"))
@@ -1718,22 +2147,60 @@ def run_c08(desc, R, rng):
                 case["kind"] = rng.choice(["ntag203", "generic"])
             _c08_discovery(rng, case)
         elif mode == "adversarial":
-            x = rng.random()
-            if x < 0.5:
-                lay = L.gen_layout(rng, uid0=rng.choice([None, 0x04]), cc2=rng.choice([6, 12, 18, 40, 62, 130]))
-                case["mem"] = bytes(lay.mem)
-            else:
-                kind = rng.choice(sorted(S.PRODUCTS))
-                case["kind"] = kind
-                case["mem"] = bytes(product_layout(rng, kind)[0])
+            _c08_base_image(rng, case, R, "adversarial")
             case["adversary"] = {"seed": rng.getrandbits(32), "p": rng.choice([1.0, 0.5, 0.2, 0.05]),
-                                 "style": rng.choice(["any", "any", "short", "acknak", "len16", "silence"])}
-            if rng.random() < 0.3:
-                _c08_version(rng, case, R)
+                                 "style": rng.choice(["any", "any", "short", "acknak", "len16", "silence", "silence"])}
         R.count("t2t_c08_class_" + cls.replace("-", "_"))
         if mode != "adversarial" and (len(case["mem"]) > 1024 or rng.random() < 0.15):
             case["hdr_check"] = True
         c08_case(case, R)
+
+
+def _c08_product_case(rng, case, R, p_mutate):
+    kind = rng.choice(sorted(S.PRODUCTS))
+    case["kind"] = kind
+    mem = bytearray(product_layout(rng, kind)[0])
+    if rng.random() < p_mutate:
+        r = L.ref_read(mem)
+        m = rng.choice(["ndef-len", "ndef-len", "flip", "cc-size"])
+        R.count("t2t_c08_product_mutation_" + m.replace("-", "_"))
+        if m == "ndef-len":
+            o = r.ndef_off
+            ln = rng.choice([0xFFFF, 255, 256, r.data_end - o, r.data_end - o - 3, len(mem) - o - 4, rng.randrange(256, 65536)])
+            mem[o + 1:o + 4] = bytes([0xFF, ln >> 8 & 255, ln & 255])
+        elif m == "flip":
+            a = rng.randrange(16, min(len(mem), r.ndef_off + 6))
+            mem[a] = rng.choice([mem[a] ^ 1 << rng.randrange(8), rng.randrange(256), 0xFF, 0x00, 0x03, 0xFE])
+        else:
+            mem[14] = rng.choice([mem[14] + 1, mem[14] + 2, mem[14] + 4, 0xFF, mem[14] - 1, rng.randrange(256)]) & 0xFF
+    case["mem"] = bytes(mem)
+
+
+def _c08_base_image(rng, case, R, what):
+    """image for the 'tag stops answering' / adversarial-response runs: valid generic layout, product layout, MUTATED
+    layout (generic or product), each optionally with a GET_VERSION variant and discovery variants"""
+    x = rng.random()
+    if x < 0.4:
+        lay = L.gen_layout(rng, uid0=rng.choice([None, 0x04]), cc2=rng.choice([6, 12, 18, 40, 62, 130, 200]))
+        case["mem"] = bytes(lay.mem)
+    elif x < 0.7:
+        _c08_product_case(rng, case, R, p_mutate=0.0)
+    elif x < 0.9:
+        lay = L.gen_layout(rng, uid0=rng.choice([None, None, 0x04]), cc2=rng.choice([6, 12, 18, 40, 62, 130]),
+                           near_end=rng.random() < 0.05)
+        mem, names = _mutate(rng, lay)
+        case["mem"] = bytes(mem)
+        R.count("t2t_c08_%s_mutated_images" % what)
+        for nm in names:
+            R.count("t2t_c08_%s_mutation_%s" % (what, nm.replace("-", "_")))
+    else:
+        _c08_product_case(rng, case, R, p_mutate=1.0)
+        R.count("t2t_c08_%s_mutated_images" % what)
+    if rng.random() < 0.3:
+        _c08_version(rng, case, R)
+        R.count("t2t_c08_%s_version_variants" % what)
+    if rng.random() < 0.3:
+        _c08_discovery(rng, case)
 
 
 def _c08_version(rng, case, R):
@@ -1758,22 +2225,20 @@ def _c08_version(rng, case, R):
 def _run_c08_stop(desc, R, rng):
     for _i in range(desc["n"]):
         case = {"family": FAM, "kind": "generic"}
-        x = rng.random()
-        if x < 0.5:
-            lay = L.gen_layout(rng, uid0=rng.choice([None, 0x04]), cc2=rng.choice([6, 12, 18, 40, 62, 130, 200]))
-            case["mem"] = bytes(lay.mem)
-        else:
-            kind = rng.choice(sorted(S.PRODUCTS))
-            case["kind"] = kind
-            case["mem"] = bytes(product_layout(rng, kind)[0])
+        _c08_base_image(rng, case, R, "stop")
         # reference run without fault: number of commands
         n_ref = c08_case(case, R)
         if n_ref is None or R.counters.get("t2t_c08_bound_hits", 0) >= C08_MAX_BOUND_HITS:
             continue
+        was_ndef = False
         for j in range(0, n_ref + 1):
             c = dict(case)
             c["stop_after"] = j
-            c08_case(c, R)
+            info = {}
+            # the differential (non-interference) runs: at the first j that still yields an NDEF object, at the last
+            # two j and at a quarter of the others
+            c08_case(c, R, info, diff=(not was_ndef) or j >= n_ref - 1 or rng.random() < 0.25)
+            was_ndef = info.get("outcome") == "ndef"
             R.count("t2t_c08_stop_points")
 
 
@@ -1866,7 +2331,7 @@ def _c08_eval(case, mem, R, wit, adversary=None):
     dev.script = script
     from vf.sim.tagdevice import frontend
     clf = frontend(dev)
-    out = {"outcome": None, "octets": None, "n": 0, "ok": True, "dev": dev, "model": model}
+    out = {"outcome": None, "octets": None, "n": 0, "ok": True, "dev": dev, "model": model, "sense_exc": None}
 
     def viol(sig, what):
         out["ok"] = False
@@ -1876,8 +2341,20 @@ def _c08_eval(case, mem, R, wit, adversary=None):
             w.pop("adversary", None)
         R.violation(sig, what, w)
 
+    sb = StepBudget.get()
+    sb.count = 0
+    out["steps"] = sb
+
     def step(name, fn):
-        st, v = guard(fn)
+        try:
+            st, v = guard(fn)
+        except StepBudgetExceeded:
+            R.count("t2t_c08_bound_hits") if hasattr(R, "count") else None
+            viol("t2t/c08/nontermination/step-budget/" + name,
+                 "%s executed more than %d loop iterations inside nfc/tag/tt2*.py without finishing (%d commands sent so far)"
+                 % (name, C08_STEPS, dev.n_commands))
+            out["outcome"] = "step-budget"
+            return False, None
         if st == "exc":
             if bound_hit(v):
                 R.count("t2t_c08_bound_hits") if hasattr(R, "count") else None
@@ -1890,8 +2367,9 @@ def _c08_eval(case, mem, R, wit, adversary=None):
         dev.dead = True
     st, target = guard(lambda: clf.sense(nfc.clf.RemoteTarget("106A")))
     if st == "exc":
-        # discovery data the frontend itself rejects (not the tag layer); not a case for this property
+        # discovery data the frontend itself rejects (not the tag layer); not a case for this property: counted
         out["outcome"] = "not-discovered"
+        out["sense_exc"] = exc_sig(target)
         return out
     if target is None:
         out["outcome"] = "not-discovered"
@@ -1934,10 +2412,24 @@ def _c08_eval(case, mem, R, wit, adversary=None):
     return out
 
 
-def c08_case(case, R, info=None):
+def _c08_tag_interprets(kind, mem):
+    """bytes behind the user memory that the TAG (model) itself interprets when it answers READ: the read protection
+    configuration of NXP products.  They are left alone by the differential runs (inverting them changes what the tag
+    answers, not what the reader does with the answers)"""
+    keep = set()
+    if kind == "ulc":
+        keep.update(range(42 * 4, 44 * 4))              # AUTH0, AUTH1
+    elif kind in S.NTAG21X:
+        c = S.PRODUCTS[kind]["cfg"] * 4
+        keep.update([c + 3, c + 4])                     # AUTH0, ACCESS (PROT)
+    return keep
+
+
+def c08_case(case, R, info=None, diff=True):
     """returns the number of commands of the run (for the stop-after-j enumeration)"""
     mem = bytes(case["mem"])
     wit = dict(case)
+    kind = case.get("kind", "generic")
     adversary = _Adversary(case["adversary"]) if case.get("adversary") and case.get("injected") is None else None
     out = _c08_eval(case, mem, R, wit, adversary)
     if info is not None:
@@ -1950,30 +2442,93 @@ def c08_case(case, R, info=None):
         R.count("t2t_c08_adversarial_responses", len(case["injected"]))
     R.count("t2t_c08_outcome_" + str(out["outcome"]).replace("-", "_"))
     R.max("t2t_c08_commands", out["n"])
+    sb = out["steps"]
+    if sb.active:
+        R.count("t2t_c08_step_budget_armed")
+        R.max("t2t_c08_loop_iterations_per_evaluation", sb.count)
+    if out["sense_exc"]:
+        R.count("t2t_c08_sense_raised_counted_as_not_discovered")
+        R.seen("t2t_c08_sense_exceptions", out["sense_exc"])
+    ul = int(case.get("uid_len") or 7)
+    R.count("t2t_c08_uid_len_%d" % ul)
     if out.get("tag_class"):
         R.seen("t2t_c08_tag_classes", out["tag_class"])
     honest = adversary is None and not case.get("injected") and case.get("stop_after") is None
-    if out["outcome"] == "ndef" and honest:
+    # what the reader saw of the memory is what the image holds as long as no response was REPLACED (silence and a tag
+    # that leaves the field withhold answers, they do not change them)
+    injected = adversary.injected if adversary is not None else (case.get("injected") or [])
+    true_view = all(kd == "silent" for _n, kd, _r in injected)
+    if out["outcome"] == "ndef":
+        R.count("t2t_c08_uid_len_%d_ndef" % ul)
+    if out["outcome"] == "ndef" and true_view and not honest and diff:
+        R.count("t2t_c08_noninterference_stop_or_silence_runs")
+    if out["outcome"] == "ndef" and true_view and (honest or diff):
         # the declared data area: what the CC in the memory says
         area = mem[14] * 8
         if out["capacity"] > area:
             R.violation("t2t/c08/capacity>data-area", "capacity %d with a data area of %d bytes" % (out["capacity"], area), wit)
         data_end = 16 + area
-        if case.get("kind", "generic") == "generic" and len(mem) > data_end:
-            # non-interference: physical bytes behind the declared data area must not influence the octets
-            mem2 = bytearray(mem)
-            for a in range(data_end, len(mem2)):
-                mem2[a] ^= 0xFF
-            out2 = _c08_eval(case, bytes(mem2), _Quiet(), wit)       # same oracles already applied to the first run
+        case2 = dict(case)
+        if adversary is not None:
+            case2["injected"] = adversary.injected      # the same responses are withheld in the differential runs
+            case2.pop("adversary", None)
+        keep = _c08_tag_interprets(kind, mem)
+        behind = [a for a in range(data_end, len(mem)) if a not in keep]
+        # bytes INSIDE the declared data area that the control TLVs exclude from it (dynamic lock bytes / reserved
+        # bytes), taken from the reference reader; only those behind the length field of the NDEF TLV (reserved bytes
+        # in front of it can coincide with TLV bytes that were interpreted), and only when no declared range covers a
+        # byte of a TLV that was walked (such an image has no consistent reading)
+        ref = L.ref_read(mem)
+        extra = []
+        if ref.status == "ndef":
+            if ref.walked & ref.reserved:
+                R.count("t2t_c08_noninterference_range_on_walked_tlv_bytes_basic_only")
+            else:
+                hdr = 4 if mem[ref.ndef_off + 1] == 0xFF else 2
+                extra = sorted(a for a in ref.reserved if ref.ndef_off + hdr <= a < min(data_end, len(mem)) and a not in keep)
+
+        def rerun(addrs):
+            m2 = bytearray(mem)
+            for a in addrs:
+                m2[a] ^= 0xFF
+            return _c08_eval(case2, bytes(m2), _Quiet(), wit)       # same oracles already applied to the first run
+        if behind or extra:
+            out2 = rerun(behind + extra)
             R.count("t2t_c08_noninterference_checked")
-            if out2["outcome"] == "ndef" and out2["octets"] != out["octets"]:
-                R.violation("t2t/c08/octets-from-outside-data-area",
-                            "octets (%d bytes) change when only bytes behind the declared data area (>= %d) are inverted: "
-                            "the message value was read from outside the data area" % (len(out["octets"]), data_end), wit)
-            elif out2["outcome"] != "ndef":
-                R.violation("t2t/c08/ndef-presence-depends-on-outside-data-area",
-                            "inverting bytes behind the declared data area turns the result into %s" % out2["outcome"], wit)
-        if case.get("hdr_check") and case.get("kind", "generic") == "generic" and len(mem) >= data_end:
+            if kind != "generic":
+                R.count("t2t_c08_noninterference_product_checked")
+                if set(behind) & _product_protected(kind) if kind in S.PRODUCTS else False:
+                    R.count("t2t_c08_noninterference_product_config_lock_pages_inverted")
+            if extra:
+                R.count("t2t_c08_noninterference_declared_reserved_bytes_inverted")
+            changed = out2["outcome"] == "ndef" and out2["octets"] != out["octets"]
+            gone = out2["outcome"] != "ndef"
+            if changed or gone:
+                # which of the two groups does it: the bytes behind the data area, or the declared ranges inside it
+                o_b = rerun(behind) if behind and extra else out2
+                by_behind = bool(behind) and (o_b["outcome"] != "ndef" or o_b["octets"] != out["octets"])
+                sfx = "" if honest else "/tag-stopped-answering" if case.get("stop_after") is not None else "/withheld-responses"
+                if by_behind or not extra:
+                    if changed:
+                        R.violation("t2t/c08/octets-from-outside-data-area" + sfx,
+                                    "octets (%d bytes) change when only bytes behind the declared data area (>= %d) are "
+                                    "inverted: the message value was read from outside the data area" % (
+                                        len(out["octets"]), data_end), wit)
+                    else:
+                        R.violation("t2t/c08/ndef-presence-depends-on-outside-data-area" + sfx,
+                                    "inverting bytes behind the declared data area turns the result into %s" % out2["outcome"], wit)
+                else:
+                    rngs = ", ".join("%d..%d" % (st_, st_ + nb - 1) for _t, _p, st_, nb in ref.ctrl)
+                    if changed:
+                        R.violation("t2t/c08/octets-from-reserved-bytes" + sfx,
+                                    "octets (%d bytes, NDEF TLV at %d) change when only bytes are inverted that the control "
+                                    "TLVs exclude from the data area (declared ranges %s): the message value was read from "
+                                    "lock / reserved bytes" % (len(out["octets"]), ref.ndef_off, rngs), wit)
+                    else:
+                        R.violation("t2t/c08/ndef-presence-depends-on-reserved-bytes" + sfx,
+                                    "inverting only bytes that the control TLVs exclude from the data area (declared ranges "
+                                    "%s) turns the result into %s" % (rngs, out2["outcome"]), wit)
+        if case.get("hdr_check") and kind == "generic" and len(mem) >= data_end and honest:
             # non-interference, header side: the identifier / internal / static lock bytes 4..11 lie outside the
             # data area and do not take part in NDEF detection (discovery uses them as opaque identifier only)
             mem3 = bytearray(mem)
@@ -2041,7 +2596,15 @@ RULE_C16 = ("cases = (personality, operation, command position p, error kind, bu
             "commands that repeat - same page, same data, no other WRITE of the page sent in between - the last "
             "WRITE of that page the tag acknowledged than the same step of the fault-free session ('a command that was "
             "answered is not sent again'); observed, not judged: whether a later step that starts from the fault-free "
-            "memory sends exactly the fault-free command sequence and returns the fault-free result")
+            "memory sends exactly the fault-free command sequence and returns the fault-free result.  Added: burst 99 "
+            "(the error never goes away; first, last and a random position of every operation); two bursts in one "
+            "operation, each within the budget (1 or 2), at two different commands, kinds and flavours drawn "
+            "independently: same result, same memory, same answered sequence; NTAG210, NTAG212, NTAG215, Ultralight "
+            "EV1 MF0UL21 and NTAG I2C 1K (quick tier: two of them, chosen by the seed; thorough tier: all, plus their "
+            "sessions); on persistent failures the clause 'an answered command is not sent again' also covers "
+            "repetitions that are not adjacent (same page, same data, no other WRITE of the page in between, "
+            "differential against the fault-free run); has_changed after a persistent error must be True (the "
+            "documented failure value), a list of any content is no longer accepted")
 REQUIRED_C16 = ["t2t_c16_cells", "t2t_c16_within_budget_same_result", "t2t_c16_persistent_tagcommanderror",
                 "t2t_c16_persistent_documented_result", "t2t_c16_answered_sequences_compared",
                 "t2t_c16_normal_returns_judged", "t2t_c16_sector_select_p1_cells", "t2t_c16_sector_select_p2_cells",
@@ -2059,8 +2622,11 @@ REQUIRED_C16 = ["t2t_c16_cells", "t2t_c16_within_budget_same_result", "t2t_c16_p
                 "t2t_c16_recover_repetition_returned_reference_result", "t2t_c16_recover_later_ops_judged",
                 "t2t_c16_recover_later_op_protect", "t2t_c16_recover_later_op_ndef_write2",
                 "t2t_c16_recover_later_op_format_wipe", "t2t_c16_recover_later_op_format",
-                "t2t_c16_recover_later_op_same_command_sequence"]
+                "t2t_c16_recover_later_op_same_command_sequence",
+                "t2t_c16_more_product_cells", "t2t_c16_burst_99_cells", "t2t_c16_double_burst_cells",
+                "t2t_c16_double_burst_same_result", "t2t_c16_persistent_resend_checked"]
 C16_MULTI_SECTOR = ("i2c2k", "generic2k")
+C16_MORE_PRODUCTS = ["ntag210", "ntag212", "ntag215", "ul21", "i2c1k"]     # quick tier: two of them, rotating with the seed
 
 C16_KINDS = {"timeout": ("TimeoutError", 0), "transmission": ("TransmissionError", -1), "protocol": ("ProtocolError", -2)}
 C16_PASSWORD_ULC = b"0123456789abcdef"
@@ -2073,8 +2639,11 @@ def plan_c16(tier):
     if tier == "quick":
         return ([{"kinds": g, "all_positions": i < 2} for i, g in enumerate(groups)] +
                 [{"mode": "sessions", "kinds": g} for g in sessions] +
-                [{"mode": "recover", "kinds": ["generic", "ul", "ulc", "ntag203", "ntag213", "ul11", "ntag216"]}])
+                [{"mode": "recover", "kinds": ["generic", "ul", "ulc", "ntag203", "ntag213", "ul11", "ntag216"]}] +
+                [{"kinds": C16_MORE_PRODUCTS, "rotate": 2, "all_positions": False}])
     return ([{"kinds": g, "all_positions": True, "timeout": 3000} for g in groups] +
+            [{"kinds": g, "all_positions": True, "timeout": 3000} for g in (["ntag210", "ntag212", "ul21"], ["ntag215", "i2c1k"])] +
+            [{"mode": "sessions", "kinds": C16_MORE_PRODUCTS, "timeout": 3000}] +
             [{"mode": "sessions", "kinds": g, "timeout": 3000} for g in sessions] +
             [{"mode": "recover", "kinds": g, "timeout": 3000} for g in (["generic", "ul", "ulc", "ntag203"],
                                                                         ["ntag213", "ul11", "ntag216"])])
@@ -2141,7 +2710,12 @@ def run_c16(desc, R, rng):
         return _run_c16_sessions(desc, R, rng)
     if desc.get("mode") == "recover":
         return _run_c16_recover(desc, R, rng)
-    for kind in desc["kinds"]:
+    kinds = list(desc["kinds"])
+    if desc.get("rotate"):
+        kinds = [kinds[(int(desc.get("seed", 0)) + 2 * i) % len(kinds)] for i in range(desc["rotate"])]
+    for kind in kinds:
+        if kind in C16_MORE_PRODUCTS:
+            R.seen("t2t_c16_more_products", kind)
         for op in _c16_ops(kind):
             base = {"family": FAM, "kind": kind, "op": op, "mem": _c16_image(rng, kind, op)}
             if op == "ndef_write":
@@ -2177,6 +2751,24 @@ def run_c16(desc, R, rng):
                             case = dict(base)
                             case.update({"p": p, "b": b, "err": err, "flavour": "cmd_lost", "lost": "damaged"})
                             _c16_fault_run(case, ref, R)
+            if not n:
+                continue
+            # the error never goes away again (burst 99): first, last and one random position
+            for p in sorted(set([0, n - 1, rng.randrange(n)])):
+                for err in sorted(C16_KINDS):
+                    case = dict(base)
+                    case.update({"p": p, "b": 99, "err": err, "flavour": rng.choice(["cmd_lost", "rsp_lost"])})
+                    _c16_fault_run(case, ref, R)
+            # two bursts in one operation, each within the retry budget, at two different commands
+            plain = [i for i in range(n) if i not in ref["single_shot"] and i not in ref["packet1"]]
+            for _x in range(4 if len(plain) >= 2 else 0):
+                p1, p2 = sorted(rng.sample(plain, 2))
+                case = dict(base)
+                case.update({"p": p1, "b": rng.choice([1, 2]), "err": rng.choice(sorted(C16_KINDS)),
+                             "flavour": rng.choice(["cmd_lost", "rsp_lost"]),
+                             "p2": p2, "b2": rng.choice([1, 2]), "err2": rng.choice(sorted(C16_KINDS)),
+                             "flavour2": rng.choice(["cmd_lost", "rsp_lost"])})
+                _c16_fault_run(case, ref, R)
 
 
 def replay_c16(case, R):
@@ -2355,6 +2947,11 @@ def _c16_fault_run(case, ref, R):
     exc = getattr(nfc.clf, ename)
     op = case["op"]
     damaged = case.get("lost") == "damaged" and flavour == "cmd_lost"
+    # optional second burst at command p2 > p of the fault-free sequence: the b repetitions of command p shift it by b
+    p2, b2 = case.get("p2"), int(case.get("b2") or 0)
+    if p2 is not None:
+        exc2 = getattr(nfc.clf, C16_KINDS[case["err2"]][0])
+        lo2 = int(p2) + b
 
     def factory(box):
         def script(n, data):
@@ -2362,6 +2959,10 @@ def _c16_fault_run(case, ref, R):
             m = box["model"]
             if "sector_at_loss" in box and "sector_after_loss" not in box:
                 box["sector_after_loss"] = m.sector          # what the tag has selected when the next command arrives
+            if p2 is not None and lo2 <= rel < lo2 + b2:
+                box["second_hit"] = box.get("second_hit", 0) + 1
+                box.setdefault("second_cmd", data)
+                return (case["flavour2"], exc2)
             if p <= rel < p + b:
                 if rel == p and p in ref["single_shot"] and flavour == "cmd_lost":
                     box["sector_at_loss"] = m.sector
@@ -2375,7 +2976,17 @@ def _c16_fault_run(case, ref, R):
         R.inconc("t2t c16: harness failure in %s/%s: %r" % (case["kind"], op, run))
         return
     R.count("t2t_c16_cells")
-    R.case([case["kind"], op, p, b, case["err"], flavour, case.get("lost", "unseen")])
+    R.case([case["kind"], op, p, b, case["err"], flavour, case.get("lost", "unseen"), p2, b2, case.get("err2"),
+            case.get("flavour2")])
+    if case["kind"] in C16_MORE_PRODUCTS:
+        R.count("t2t_c16_more_product_cells")
+    if b >= 99:
+        R.count("t2t_c16_burst_99_cells")
+    if p2 is not None:
+        R.count("t2t_c16_double_burst_cells")
+        if run["box"].get("second_hit") != b2 or bytes(run["box"].get("second_cmd") or b"")[:2] != bytes(ref["log"][p2][1])[:2]:
+            # the second burst did not land on command p2 of the fault-free sequence (the operation took another path)
+            R.count("t2t_c16_double_burst_second_not_at_planned_command")
     if p in ref["packet1"]:
         R.count("t2t_c16_sector_select_p1_cells")
     if p in ref["single_shot"]:
@@ -2394,6 +3005,9 @@ def _c16_fault_run(case, ref, R):
     cell = "%s at command %d (%s) of %s/%s, burst %d, %s%s" % (
         ename, p, ref["log"][p][1][:2].hex() if p < len(ref["log"]) else "?", case["kind"], op, b, flavour,
         " (damaged frame)" if damaged else "")
+    if p2 is not None:
+        cell += " + %s at command %d (%s), burst %d, %s" % (C16_KINDS[case["err2"]][0], p2, ref["log"][p2][1][:2].hex(),
+                                                           b2, case["flavour2"])
     nv = _nviol(R)
     _c16_judge(case, ref, run, R, cell)
     if _nviol(R) == nv:
@@ -2501,6 +3115,9 @@ def _c16_judge(case, ref, run, R, cell):
             R.violation("t2t/c16/activate-result", cell + ": " + repr(out[:4]), case)
         return
     unrepeatable = cmd_at_p[:1] == b"\xAF" and flavour == "rsp_lost"
+    if case.get("p2") is not None:
+        c2 = ref["log"][case["p2"]][1]
+        unrepeatable = unrepeatable or (c2[:1] == b"\xAF" and case["flavour2"] == "rsp_lost")
     if b <= 2:
         same = out[:4] == ref["outcome"][:4]
         if unrepeatable and not same and out == ["ret", False]:
@@ -2520,10 +3137,23 @@ def _c16_judge(case, ref, run, R, cell):
                         "again, or a command is missing)" % (len(_answered(run["log"])), len(ref["answered"])), case)
             return
         R.count("t2t_c16_within_budget_same_result")
+        if case.get("p2") is not None:
+            R.count("t2t_c16_double_burst_same_result")
         return
     # persistent error
     if _write_dups(_answered(run["log"])) > _write_dups(ref["answered"]):
         R.violation("t2t/c16/persistent/answered-write-resent/%s" % op, cell + ": an acknowledged WRITE was sent again", case)
+    elif case["kind"] not in C16_MULTI_SECTOR:
+        # the same clause for repetitions that are not adjacent: a WRITE identical (page, data) to the last WRITE of
+        # that page the tag acknowledged, no other WRITE of the page sent in between; differential against the
+        # fault-free run of the operation
+        got = _c16_resent_writes([{"log": [(c, r) for _n, c, r in run["log"]]}])[0]
+        want = _c16_resent_writes([{"log": [(c, r) for _n, c, r in ref["log"]]}])[0]
+        R.count("t2t_c16_persistent_resend_checked")
+        if len(got) > len(want):
+            R.violation("t2t/c16/persistent/answered-write-resent-later/%s" % op,
+                        cell + ": %d WRITE command(s) the tag had acknowledged were sent again with the same data "
+                        "(page(s) %s), not directly after the acknowledge" % (len(got) - len(want), sorted(set(got))), case)
     if out[0] == "exc":
         # commands the tag saw after the burst: the operation absorbed the persisting error (documented for dump:
         # "until an error response is received") and went on; a later TagCommandError then reports what the tag
@@ -2540,7 +3170,10 @@ def _c16_judge(case, ref, run, R, cell):
     v = out[1]
     documented = {
         "ndef_read": lambda: v is None,
-        "has_changed": lambda: isinstance(v, list),
+        # has_changed: "it is possible that Tag.ndef is None after the update (e.g. tag gone during read)": data that
+        # could not be read differs from the data read before -> True; False would tell the application that the
+        # message on the tag is the one it knows
+        "has_changed": lambda: isinstance(v, list) and len(v) == 2 and v[0] is True,
         "is_present": lambda: v is False,
         "format": lambda: v is False, "format_wipe": lambda: v is False, "format_blank": lambda: v is False,
         "protect": lambda: v is False, "protect_pw": lambda: v is False,
